@@ -81,7 +81,8 @@ def theorem_names(module):
     src = open(path).read()
     ns = re.search(r"^namespace\s+(\S+)", src, re.M)
     ns = ns.group(1) + "." if ns else ""
-    return [ns + m for m in re.findall(r"^theorem\s+([^\s:({\[]+)", src, re.M)], src
+    code = re.sub(r"/-.*?-/", "", src, flags=re.S)   # doc / block comments are not declarations
+    return [ns + m for m in re.findall(r"^theorem\s+([^\s:({\[]+)", code, re.M)], src
 
 
 def forbidden_tokens(modules_src):
